@@ -72,3 +72,46 @@ MUTANTS += [
  dict(id='c11-sportshall-low-boundary', props=['C11'], file=S,
       old="if dperf <= Decimal(v1):  # look higher", new="if dperf < Decimal(v1):  # look higher"),
 ]
+
+C = 'athlib/codes.py'
+MUTANTS += [
+ # ---- C04 -----------------------------------------------------------------------
+ dict(id='c04-throw-sh', props=['C04'], file=C,
+      old='r"[oO][hH][t' + 'T]|"', new='r"[oO][hH][t' + 'T]|[sS][hH]|"'),
+ dict(id='c04-timed-drop-road', props=['C04'], file=C,
+      old="PAT_TIMED_EVENT = re.compile(_orjoin(PAT_TRACK, PAT_HURDLES, PAT_ROAD, PAT_RELAYS))",
+      new="PAT_TIMED_EVENT = re.compile(_orjoin(PAT_TRACK, PAT_HURDLES, PAT_RELAYS))"),
+ dict(id='c04-orjoin-anchor', props=['C04'], file=C,
+      old="PAT_LENGTH_EVENT = re.compile(_orjoin(PAT_HORIZONTAL_JUMPS, PAT_THROWS))",
+      new="PAT_LENGTH_EVENT = re.compile('^' + PAT_HORIZONTAL_JUMPS.pattern[1:-1] + '|' + PAT_THROWS.pattern[1:-1] + '$')"),
+ dict(id='c04-multi-ht', props=['C04'], file=C,
+      old='    "PENWT",  # Weights', new='    "PENWT", "HT",  # Weights'),
+ dict(id='c04-races-widen', props=['C04'], file=C,
+      old=r'(?P<dhours>\d\d?)([hH](?:[rR]|[wW]))', new=r'(?P<dhours>\d\d?)([hH](?:[rR]|[wW])?)'),
+ dict(id='c04-finish-record', props=['C04'], file=C,
+      old="PAT_FINISH_RECORD = re.compile(_orjoin(PAT_PERF, PAT_FINISHED, PAT_NOT_FINISHED))",
+      new="PAT_FINISH_RECORD = re.compile(_orjoin(PAT_PERF, PAT_NOT_FINISHED))"),
+]
+
+U = 'athlib/utils.py'
+MUTANTS += [
+ # ---- C07 -----------------------------------------------------------------------
+ dict(id='c07-no-otnum', props=['C07'], file=U, old="gdtnum=_norm_kg,otnum=_norm_g,", new="gdtnum=_norm_kg,"),
+ dict(id='c07-sorted-forward', props=['C07'], file=U, old="in sorted(R, reverse=True):", new="in sorted(R):"),
+ dict(id='c07-kg-strip-g-only', props=['C07'], file=U,
+      old="    if s[-1].lower()=='k': s = s[:-1]\n", new=""),
+ dict(id='c07-relay-no-upper', props=['C07'], file=U,
+      old="c = '%sx%s' % (rm.group(1),rm.group(2).upper())", new="c = '%sx%s' % (rm.group(1),rm.group(2))"),
+ dict(id='c07-no-strip', props=['C07'], file=U,
+      old="    c = c.strip()   #remove excess whitespace\n    m =  PAT_EVENT_CODE.match(c)", new="    m =  PAT_EVENT_CODE.match(c)"),
+ dict(id='c07-upper-after', props=['C07'], file=U,
+      old="""        c = c.upper()
+        for ((start,end),repl) in sorted(R, reverse=True):
+            c = c[:start] + repl + c[end:] """, new="""        for ((start,end),repl) in sorted(R, reverse=True):
+            c = c[:start] + repl + c[end:] 
+        c = c.upper()"""),
+ dict(id='c07-unfix-ws', props=['C07'], file=U, old="    return ''.join(c.split())\n", new="    return c.replace(' ','')\n"),
+ dict(id='c07-unfix-tz', props=['C07'], file=U, old="        s = s.rstrip('0').rstrip('.')\n", new="        while s and s[-1] in ' .0': s = s[:-1]\n"),
+ dict(id='c07-g-keeps-g', props=['C07'], file=U,
+      old="    if s[-1].lower()=='g': s = s[:-1]\n    return _norm_tzeroes(s)\n", new="    return _norm_tzeroes(s)\n"),
+]
